@@ -20,9 +20,9 @@ def run(ctx):
     ctx.assume(*_pipe.ASSUME)
     ctx.not_claimed(_pipe.OUTSIDE)
     C = []
-    ks = [1, 22, 38, 20] if q else list(range(len(P.HOLES)))
+    ks = [1, 22, 38, 20] if q else list(range(0, len(P.HOLES), 2)) + [31, 33, 35, 37]
     if not q:
-        C += PC.text_holes(ctx, own, ks, vis=(4,), timeout=2400)
+        C += PC.text_holes(ctx, own, ks, vis=(4,), timeout=900)
     C += PC.spell_holes(ctx, own, range(1, len(P.SPELL), 2) if q else range(len(P.SPELL)))
     C += PC.label_holes(ctx, own, [P.skel('def f(a, /'), P.skel('def f():'), P.skel('if a:\n  b\nelse:'), 2] if q else range(len(P.SKELS)), vis=(4,) if q else (0, 4, 8))
     C += PC.label_holes(ctx, own, [P.skel('def f[T')], vis=(8,))
